@@ -44,7 +44,10 @@ def flatten(v, conds=()):
             gs = g[1] if isinstance(g, tuple) and len(g) == 2 and g[0] == "all" else (g,)
             out.extend(flatten(x, conds + tuple(norm_cond(y) for y in gs)))
         return out
-    return [(frozenset(conds), v)]
+    cs = frozenset(conds)
+    if any((a, not p) in cs for a, p in cs):
+        return []            # a path that assumes a test both ways (the same test evaluated twice, e.g. inside a helper called twice) is infeasible
+    return [(cs, v)]
 
 
 def lit(v, pol=True):
@@ -63,8 +66,12 @@ def int_feasible(cset, var, domain):
         if isinstance(a, tuple) and a[:2] == ("sym", "cmp") and len(a) == 4 and a[2] in ("Lt", "Le", "Eq"):
             q = cel.poly_from_key(a[3])
             names = {at for (mono, tens) in q.t for at, _ in mono}
-            if tens_free(q) and names <= {var}:
+            if tens_free(q) and names <= {var} and names:
                 p = q
+        if p is None and isinstance(a, tuple) and a[:1] == ("arm",) and len(a) == 3 and isinstance(a[1], str) and a[1].lstrip("-").isdigit() \
+                and a[2] == cel.Poly.atom(var).key():
+            mine.append(("Eq", cel.Poly.atom(var) - cel.Poly.const(int(a[1])), pol))       # a literal arm of `match var { 3 => .. }`
+            continue
         if p is None:
             rest.append((a, pol))
         else:
@@ -112,6 +119,33 @@ def may_establish(cset, lit):
             if any(lit in atoms({(d, True)}) for d in k[2:]):
                 return True
     return False
+
+
+def minimise(pset):
+    """Boolean minimisation of a path set {(frozenset of literals, leaf key)}: two paths with the same leaf whose conditions differ in the polarity of exactly
+    one literal are one path without that literal (the test was irrelevant there); literals are first split (De Morgan). Repeated to a fixed point, so the
+    order and nesting in which independent tests are made does not show."""
+    cur = {(atoms(c), v) for c, v in pset}
+    changed = True
+    while changed:
+        changed = False
+        lst = list(cur)
+        for i in range(len(lst)):
+            for j in range(i + 1, len(lst)):
+                (c1, v1), (c2, v2) = lst[i], lst[j]
+                if v1 != v2 or len(c1) != len(c2):
+                    continue
+                d1, d2 = c1 - c2, c2 - c1
+                if len(d1) == 1 and len(d2) == 1:
+                    (a1, p1), (a2, p2) = next(iter(d1)), next(iter(d2))
+                    if a1 == a2 and p1 != p2:
+                        cur.discard(lst[i]); cur.discard(lst[j])
+                        cur.add((c1 & c2, v1))
+                        changed = True
+                        break
+            if changed:
+                break
+    return cur
 
 
 def path_set(v):
